@@ -334,7 +334,7 @@ var c31Tables [LogicVersion + 1]*c31VerOps
 
 // ops that index, slice, allocate, recurse or touch state get a higher weight (DESIGN C31 domain).
 var c31Heavy = []string{"substring", "extract", "replace", "box_", "app_box_", "bzero", "concat", "b+", "b-", "b*", "b/", "b%",
-	"b|", "b&", "b^", "b~", "bsqrt", "json_ref", "base64_decode", "ec_", "frame_", "switch", "match", "itxn", "gitxn",
+	"b|", "b&", "b^", "b~", "bsqrt", "json_ref", "base64_decode", "ec_", "switch", "match", "itxn", "gitxn",
 	"dupn", "popn", "select", "gload", "setbit", "getbit", "setbyte", "getbyte", "pushbytess", "pushints", "mimc",
 	"poseidon2", "sumhash512", "dig", "cover", "uncover", "bury", "txna", "gtxna", "txnas", "args", "loads", "stores",
 	"app_local", "app_global", "asset_", "app_params", "acct_params", "log", "divw", "divmodw", "expw", "exp", "shl", "shr",
@@ -540,8 +540,12 @@ func c31Int(s c31Src) uint64 {
 	}
 }
 
-// c31IntNear picks an int relative to a known byte length L (indexes, lengths, bit positions).
+// c31IntNear picks an int relative to a known byte length L (indexes, lengths, bit positions): mostly inside
+// [0,L], sometimes on or just past an edge.
 func c31IntNear(s c31Src, L int) uint64 {
+	if c31Pct(s, 65) {
+		return uint64(s.N(L + 1))
+	}
 	c := []int64{0, 1, int64(L) - 1, int64(L), int64(L) + 1, int64(L) / 2, int64(L) - 8, int64(L) - 4, int64(L) - 2, 8*int64(L) - 1, 8 * int64(L), 8*int64(L) + 1}
 	x := c[s.N(len(c))]
 	if x < 0 {
@@ -552,7 +556,7 @@ func c31IntNear(s c31Src, L int) uint64 {
 
 func c31Len(s c31Src, lo, hi uint64) int {
 	if lo == hi {
-		if c31Pct(s, 92) {
+		if c31Pct(s, 96) {
 			return int(lo)
 		}
 		if s.N(2) == 0 && lo > 0 {
@@ -563,7 +567,7 @@ func c31Len(s c31Src, lo, hi uint64) int {
 	if hi > 4096 {
 		hi = 4096
 	}
-	if c31Pct(s, 8) { // just outside
+	if c31Pct(s, 3) { // just outside
 		if s.N(2) == 0 && lo > 0 {
 			return int(lo) - 1
 		}
@@ -798,7 +802,10 @@ func (g *c31Gen) byteImm(sp *OpSpec, im *immediate) byte {
 	}
 	switch im.Name {
 	case "t":
-		return byte(s.N(g.nGroup + 1))
+		if c31Pct(s, 92) {
+			return byte(s.N(g.nGroup))
+		}
+		return byte(g.nGroup + s.N(2))
 	case "s", "e", "l":
 		if g.lastLen >= 0 && c31Pct(s, 70) {
 			x := c31IntNear(s, g.lastLen)
@@ -817,7 +824,7 @@ func (g *c31Gen) byteImm(sp *OpSpec, im *immediate) byte {
 			}
 			return byte(s.N(5))
 		case "arg":
-			return byte(s.N(5))
+			return byte(s.N(4))
 		}
 		if d > 0 && c31Pct(s, 85) {
 			return byte(s.N(d + 1))
@@ -1092,6 +1099,45 @@ func (g *c31Gen) special(sp *OpSpec) bool {
 	case name == "itxn_field":
 		g.itxnField(sp)
 		return true
+	case strings.HasPrefix(name, "intc") && name != "intcblock":
+		for len(g.intc) < 5 {
+			g.intc = append(g.intc, c31Int(s))
+		}
+		if name == "intc" {
+			idx := s.N(len(g.intc))
+			if c31Pct(s, 5) {
+				idx = len(g.intc) + s.N(3)
+			}
+			g.emit(sp, c31B(byte(idx)))
+		} else {
+			g.emit(sp)
+		}
+		g.push(avmUint64, -1)
+		return true
+	case strings.HasPrefix(name, "bytec") && name != "bytecblock":
+		for len(g.bytec) < 5 {
+			b := make([]byte, c31Len(s, 0, 64))
+			c31Fill(s, b)
+			g.bytec = append(g.bytec, b)
+		}
+		if name == "bytec" {
+			idx := s.N(len(g.bytec))
+			if c31Pct(s, 5) {
+				idx = len(g.bytec) + s.N(3)
+			}
+			g.emit(sp, c31B(byte(idx)))
+		} else {
+			g.emit(sp)
+		}
+		g.push(avmBytes, -1)
+		return true
+	case name == "intcblock" || name == "bytecblock":
+		// a second constant block mid-program replaces the pool the generator relies on: rare
+		if c31Pct(s, 85) {
+			g.generic(1)
+			return true
+		}
+		return false
 	case name == "assert":
 		if c31Pct(s, 85) {
 			g.pushInt(1)
@@ -1107,7 +1153,7 @@ func (g *c31Gen) special(sp *OpSpec) bool {
 	case name == "select" || name == "setbit" || name == "setbyte" || name == "getbit" || name == "getbyte":
 		return false
 	case name == "bzero":
-		if c31Pct(s, 70) {
+		if c31Pct(s, 92) {
 			g.pushInt(uint64(c31LenPool[s.N(len(c31LenPool))]))
 		} else {
 			g.pushInt(c31Int(s))
@@ -1199,7 +1245,12 @@ func (g *c31Gen) ecGroup(sp *OpSpec) {
 	case "ec_map_to":
 		b := make([]byte, sz/2)
 		c31Fill(s, b)
-		if c31Pct(s, 10) && len(b) > 0 {
+		if c31Pct(s, 70) { // keep each coordinate below the field modulus
+			for i := 0; i < len(b); i += 32 + 16*(gsel/2) {
+				b[i] = 0
+			}
+		}
+		if c31Pct(s, 6) && len(b) > 0 {
 			b = b[:len(b)-1]
 		}
 		g.pushBytes(b)
@@ -1443,9 +1494,15 @@ func (g *c31Gen) tmplSwitch() {
 
 func (g *c31Gen) tmplItxn() {
 	s := g.s
-	if g.spec("itxn_begin") == nil {
+	itf := g.spec("itxn_field")
+	if g.spec("itxn_begin") == nil || itf == nil {
 		g.generic(3)
 		return
+	}
+	set := func(f TxnField, push func()) {
+		push()
+		g.emit(itf, c31B(byte(f)))
+		g.pop(1)
 	}
 	groups := 1 + s.N(3)
 	if g.spec("itxn_next") == nil {
@@ -1456,26 +1513,36 @@ func (g *c31Gen) tmplItxn() {
 		if gi > 0 {
 			g.op("itxn_next")
 		}
-		// type first, usually
-		if c31Pct(s, 85) {
-			g.pushInt(uint64(1 + s.N(6)))
-			g.emit(g.spec("itxn_field"), c31B(byte(TypeEnum)))
-			g.pop(1)
-		}
-		if c31Pct(s, 30) { // an inner app call to a known app
-			g.pushInt(6)
-			g.emit(g.spec("itxn_field"), c31B(byte(TypeEnum)))
-			g.pop(1)
-			g.pushInt(c31KnownIDs[s.N(4)])
-			g.emit(g.spec("itxn_field"), c31B(byte(ApplicationID)))
-			g.pop(1)
-		}
-		nf := s.N(5)
-		for k := 0; k < nf; k++ {
-			g.itxnField(g.spec("itxn_field"))
+		switch s.N(10) {
+		case 0, 1, 2, 3: // a clean inner application call to one of the known apps
+			set(TypeEnum, func() { g.pushInt(6) })
+			set(ApplicationID, func() { g.pushInt(c31KnownIDs[s.N(4)]) })
+			if c31Pct(s, 30) {
+				set(OnCompletion, func() { g.pushInt(uint64(s.N(6))) })
+			}
+			for k := s.N(3); k > 0; k-- {
+				set(ApplicationArgs, func() { g.pushBytesLen(c31Len(s, 0, 64)) })
+			}
+		case 4, 5: // a clean payment
+			set(TypeEnum, func() { g.pushInt(1) })
+			a := c31Addrs()
+			set(Receiver, func() { g.pushBytes(a[s.N(len(a))]) })
+			set(Amount, func() { g.pushInt([]uint64{0, 1, 1000, 100000, 1 << 50}[s.N(5)]) })
+		case 6: // inner application creation with a tiny approving program
+			set(TypeEnum, func() { g.pushInt(6) })
+			set(ApprovalProgram, func() { g.pushBytes(g.approve) })
+			set(ClearStateProgram, func() { g.pushBytes(g.approve) })
+		default: // anything
+			if c31Pct(s, 85) {
+				set(TypeEnum, func() { g.pushInt(uint64(1 + s.N(6))) })
+			}
+			nf := s.N(5)
+			for k := 0; k < nf; k++ {
+				g.itxnField(itf)
+			}
 		}
 	}
-	if c31Pct(s, 90) {
+	if c31Pct(s, 93) {
 		g.op("itxn_submit")
 	}
 	for k := s.N(3); k > 0; k-- {
